@@ -4,16 +4,56 @@ use crate::runner::Prop;
 pub mod c01;
 pub mod c02;
 pub mod c03;
+pub mod c04;
+pub mod c05;
+pub mod c06;
+pub mod c07;
+pub mod c08;
+pub mod c09;
+pub mod c10;
+pub mod c11;
 pub mod c12;
 pub mod c13;
+pub mod c14;
+pub mod c15;
+pub mod c16;
+pub mod c23;
+pub mod c24;
+pub mod c25;
+pub mod c28;
+pub mod c29;
+pub mod exh;
 
 pub fn all() -> Vec<Prop> {
-    vec![c01::prop(), c02::prop(), c03::prop(), c12::prop(), c13::prop()]
+    vec![
+        c01::prop(),
+        c02::prop(),
+        c03::prop(),
+        c04::prop(),
+        c05::prop(),
+        c06::prop(),
+        c07::prop(),
+        c08::prop(),
+        c09::prop(),
+        c10::prop(),
+        c11::prop(),
+        c12::prop(),
+        c13::prop(),
+        c14::prop(),
+        c15::prop(),
+        c16::prop(),
+        c23::prop(),
+        c24::prop(),
+        c25::prop(),
+        c28::prop(),
+        c29::prop(),
+    ]
 }
 
 /// Auxiliary child entry points used by custom stages (`verif aux --prop ID ...`).
-pub fn aux(id: &str, _args: &[String]) -> i32 {
+pub fn aux(id: &str, args: &[String]) -> i32 {
     match id {
+        "C14" => c14::aux(args),
         _ => {
             eprintln!("no aux entry for {}", id);
             4
